@@ -173,6 +173,28 @@ class C09(Property):
 
     def neighbours(self, case, rng):
         out = []
+        if case['kind'] == 'objecttype':
+            # an extension in several steps: put the definitions in between into the triple (upgrades must compose)
+            for a in case['defs']:
+                for c in case['defs']:
+                    ra, rc = a.get('regexHard'), c.get('regexHard')
+                    if ra and rc and rc.startswith(ra + '|') and '|' in rc[len(ra) + 1:]:
+                        cut = rc.index('|', len(ra) + 1)
+                        m = json.loads(json.dumps(c))
+                        m['regexHard'] = rc[:cut]
+                        m['version'] = a['version'] + 1
+                        c2 = json.loads(json.dumps(c))
+                        c2['version'] = max(c['version'], a['version'] + 2)
+                        out.append({'kind': 'objecttype', 'defs': [a, m, c2]})
+                    da, dc = a.get('dataType', ''), c.get('dataType', '')
+                    if da.startswith('enum:') and dc.startswith(da + ':') and ':' in dc[len(da) + 1:]:
+                        cut = dc.index(':', len(da) + 1)
+                        m = json.loads(json.dumps(c))
+                        m['dataType'] = dc[:cut]
+                        m['version'] = a['version'] + 1
+                        c2 = json.loads(json.dumps(c))
+                        c2['version'] = max(c['version'], a['version'] + 2)
+                        out.append({'kind': 'objecttype', 'defs': [a, m, c2]})
         for _ in range(40):
             a = case['defs'][0]
             b = G.vary(rng, case['kind'], a)
